@@ -91,7 +91,7 @@ def rule_get_stub(ctx: Ctx, repo: Repo) -> None:
         ctx.check(bound.get("existing_annotation_strategy") == S("strategy"), "R-C01.1", gs.fq, "the requested annotation strategy is passed on", construct=f"{bound.get('existing_annotation_strategy')}")
 
 
-def rule_updated_definition(ctx: Ctx, repo: Repo) -> None:
+def rule_updated_definition(ctx: Ctx, repo: Repo, rule: str = "R-C01.2") -> None:
     gud = repo.fn(ST, "get_updated_definition")
     ctx.functions.add(gud.fq)
     ps = gud.positional_params()
@@ -110,22 +110,27 @@ def rule_updated_definition(ctx: Ctx, repo: Repo) -> None:
                     return R("noop_rewriter")
                 if fname and fname.endswith("from_callable_and_traced_types"):
                     _c.append(tuple(st.freeze(x) for x in a))
-                    return R("definition")
+                    # the definition whose signature the strategy-aware update functions produced (here: a source annotation was kept)
+                    return R("definition", signature=R("sig", return_annotation=S("anno:kept-from-source"), parameters=S("params")), typed_dict_class_stubs=S("stubs"))
                 return None
             sc = StubScenario(repo, "get_updated_definition", call_hook=hook)
             rw: V = S("the-rewriter") if given else K(None)
-            sc.result({ps[0]: S("func"), ps[1]: S("traces"), ps[2]: S("limit"), ps[3]: rw, ps[4]: S("strategy")})
+            res_def = sc.result({ps[0]: S("func"), ps[1]: S("traces"), ps[2]: S("limit"), ps[3]: rw, ps[4]: S("strategy")})
             used = S("the-rewriter") if given else R("noop_rewriter")
             lab = f"return={'absent' if rt == K(None) else 'T'} yield={'absent' if yt == K(None) else 'T'} rewriter={'given' if given else 'None'}"
-            if not ctx.check(len(calls) == 1 and len(calls[0]) == 5, "R-C01.2", gud.fq, "one definition is built per function", construct=f"{lab}: {len(calls)} calls"):
+            if not ctx.check(len(calls) == 1 and len(calls[0]) == 5, rule, gud.fq, "one definition is built per function", construct=f"{lab}: {len(calls)} calls"):
                 continue
             f_, args_, r_, y_, s_ = calls[0]
             want_args = R("dict", items=((K("a"), R("rewritten", by=used, of=S("T:a"))), (K("b"), R("rewritten", by=used, of=S("T:b")))))
-            ctx.check(f_ == S("func") and args_ == want_args, "R-C01.2", gud.fq, "every argument's merged type is rewritten once by the rewriter in use and handed on",
+            ctx.check(f_ == S("func") and args_ == want_args, rule, gud.fq, "every argument's merged type is rewritten once by the rewriter in use and handed on",
                       construct=f"{lab}: {args_}")
-            ctx.check(r_ == (K(None) if rt == K(None) else R("rewritten", by=used, of=rt)) and y_ == (K(None) if yt == K(None) else R("rewritten", by=used, of=yt)), "R-C01.2", gud.fq,
+            ctx.check(r_ == (K(None) if rt == K(None) else R("rewritten", by=used, of=rt)) and y_ == (K(None) if yt == K(None) else R("rewritten", by=used, of=yt)), rule, gud.fq,
                       "the merged return / yield types are rewritten once and handed on; absent ones stay absent", construct=f"{lab}: return {r_} yield {y_}")
-            ctx.check(s_ == S("strategy") and len(rewrites) == 2 + (rt != K(None)) + (yt != K(None)), "R-C01.2", gud.fq, "nothing is rewritten twice or skipped", construct=f"{lab}: {len(rewrites)} rewrites")
+            ctx.check(s_ == S("strategy") and len(rewrites) == 2 + (rt != K(None)) + (yt != K(None)), rule, gud.fq, "nothing is rewritten twice or skipped", construct=f"{lab}: {len(rewrites)} rewrites")
+            want_def = R("definition", signature=R("sig", return_annotation=S("anno:kept-from-source"), parameters=S("params")), typed_dict_class_stubs=S("stubs"))
+            ctx.check(res_def == want_def, rule, gud.fq,
+                      "the definition built from the traced types is returned as it is: the signature that the strategy-aware updates produced (kept source annotations included) is not touched afterwards",
+                      construct=f"{lab}: returns {str(res_def)[:200]}")
 
 
 def rule_traced_types(ctx: Ctx, repo: Repo) -> None:
